@@ -521,6 +521,22 @@ func (p c09) pass(c *core.C, cs c09Pass) {
 			}
 		}
 	}
+	// int 0 and bool false render as non-empty text ("0", "no") today; a writer that omits them
+	// would follow the statement just as well ("optional zero fields are omitted"): tolerate both
+	zeroOK := map[string]bool{"Size": s.Size == 0, "Flag": !s.Flag}
+	strip := func(in []string, present map[string][]string) []string {
+		var o []string
+		for _, k := range in {
+			if zeroOK[k] {
+				if _, written := present[k]; !written {
+					continue
+				}
+			}
+			o = append(o, k)
+		}
+		return o
+	}
+	wantOrder = strip(wantOrder, out.Lines)
 	if !eqLines(out.Order, wantOrder) {
 		c.Failf("pass-through order: got %q, want %q\noriginal: %q\nchanges: %v\nwritten: %q", out.Order, wantOrder, text, cs.Set, buf.String())
 		return
@@ -583,8 +599,13 @@ func (p c09) passSequence(c *core.C, cs c09Pass) {
 		c.Failf("clear-all, Marshal, set X-Note, Marshal: the second output is not one well-formed paragraph: %q (first output %q)", b2.String(), b1.String())
 		return
 	}
-	// expected: Size and Flag are always written (non-empty text); X-Note is back
-	want := map[string]bool{"Size": true, "Flag": true, "X-Note": true}
+	// expected: X-Note is back; Size (0 or not) and Flag render as text today, but may legitimately be omitted when zero
+	want := map[string]bool{"X-Note": true}
+	for _, k := range []string{"Size", "Flag"} {
+		if _, written := ref[0].Lines[k]; written || (k == "Size" && s.Size != 0) || (k == "Flag" && s.Flag) {
+			want[k] = true
+		}
+	}
 	for _, k := range unknownOrder() {
 		want[k] = true
 	}
